@@ -237,20 +237,37 @@ func splittable(o *Obligation, q string) bool {
 }
 
 func splitParts(o *Obligation, q string) []string {
+	// the disjuncts of a block condition defined among the facts as (= bc!N (or c1 .. cn)); nil if it is not one
+	defOf := func(cond string) []string {
+		if !strings.HasPrefix(cond, "bc!") || strings.ContainsAny(cond, " ()") {
+			return nil
+		}
+		def := "(assert (= " + cond + " (or "
+		i := strings.Index(q, def)
+		if i < 0 {
+			return nil
+		}
+		rest := q[i+len(def):]
+		if nl := strings.IndexByte(rest, '\n'); nl >= 0 {
+			rest = rest[:nl]
+		}
+		return topLevelTerms(rest)
+	}
 	cond := strings.TrimSpace(o.Cond)
-	if !strings.HasPrefix(cond, "bc!") || strings.ContainsAny(cond, " ()") {
-		return nil
+	var parts []string
+	if strings.HasPrefix(cond, "(or ") {
+		// the guard itself is a disjunction of paths (a merge at the function's exit): its disjuncts, each block
+		// condition among them expanded one level
+		for _, c := range topLevelTerms(cond[len("(or "):]) {
+			if sub := defOf(c); len(sub) >= 2 {
+				parts = append(parts, sub...)
+			} else {
+				parts = append(parts, c)
+			}
+		}
+	} else {
+		parts = defOf(cond)
 	}
-	def := "(assert (= " + cond + " (or "
-	i := strings.Index(q, def)
-	if i < 0 {
-		return nil
-	}
-	rest := q[i+len(def):]
-	if nl := strings.IndexByte(rest, '\n'); nl >= 0 {
-		rest = rest[:nl]
-	}
-	parts := topLevelTerms(rest)
 	if len(parts) < 2 || len(parts) > 16 {
 		return nil
 	}
